@@ -665,6 +665,14 @@ class WaitNoEcho(Contract):
 
 
 # ---- PopenSpawn.read_nonblocking (reader thread -> queue -> here) ----------------------------------------------
+class QueueEmpty(Contract):
+    """queue.Queue.empty(): a snapshot that may be stale the moment it is returned - either answer"""
+    params = ['self']
+
+    def outcomes(self, v):
+        return [Ret(T.Bool)]
+
+
 class QueueGetNowait(Contract):
     """queue.Queue.get_nowait() on the read queue: FIFO; a chunk of what the reader thread has queued, the None
     sentinel once everything before it was taken, or Empty if nothing is queued right now.
@@ -911,6 +919,7 @@ def register(reg):
     reg.add_iface('iface:socket', 'settimeout', SockSetTimeout)
     reg.add_iface('iface:socket', 'recv', SockRecv)
     reg.add_iface('iface:queue', 'get_nowait', QueueGetNowait)
+    reg.add_iface('iface:queue', 'empty', QueueEmpty)
     reg.add_iface('iface:ptyproc', 'getecho', GetEcho)
     reg.add_extern('os.read', OsReadEnv)
 
